@@ -125,13 +125,7 @@ namespace
     {
       typedef TupleDiagMatrix<CSR, CSR> M;
       Layout L; L.name = "TupleDiagMatrix<1x2,2x2>"; L.m = 3; L.n = 4; L.block(0, 1, 0, 2); L.block(1, 3, 2, 4);
-      // the DenseVector overloads of TupleDiagMatrix do not compile on the pinned tree (one-block specialisation lacks them)
-#ifdef C01_HAVE_TUPLEDIAG_DENSE
-      constexpr bool tdd = true;
-#else
-      constexpr bool tdd = false;
-#endif
-      enum_meta<DT, IT, M, tdd>(c, L,
+      enum_meta<DT, IT, M, true>(c, L,
         [&](const DenseRef& D, int rep) { M A; A.template at<0, 0>() = build_csr<DT, IT>(sub(D, 0, 1, 0, 2), rep); A.template at<1, 1>() = build_csr<DT, IT>(sub(D, 1, 3, 2, 4), rep); return A; },
         [&](const M& A, verif::Hash& h) { hl(A.template at<0, 0>(), h); hl(A.template at<1, 1>(), h); });
     }
